@@ -140,8 +140,16 @@ impl RecordSet {
             if let Some(key_field_index) = schema.key_field_index {
                 let mut map = HashMap::with_capacity(records.len());
                 for (i, record) in records.iter().enumerate() {
-                    if let Some(Value::UInt32(key)) = record.get_value(key_field_index) {
-                        map.insert(*key, i);
+                    // Key columns are declared UInt32 or Int32 (Schema::validate accepts
+                    // both); keys are looked up by their 32-bit pattern
+                    match record.get_value(key_field_index) {
+                        Some(Value::UInt32(key)) => {
+                            map.insert(*key, i);
+                        }
+                        Some(Value::Int32(key)) => {
+                            map.insert(*key as u32, i);
+                        }
+                        _ => {}
                     }
                 }
                 Some(map)
@@ -231,12 +239,10 @@ impl RecordSet {
             .records
             .iter()
             .enumerate()
-            .filter_map(|(i, record)| {
-                if let Some(Value::UInt32(key)) = record.get_value(key_field_index) {
-                    Some((*key, i))
-                } else {
-                    None
-                }
+            .filter_map(|(i, record)| match record.get_value(key_field_index) {
+                Some(Value::UInt32(key)) => Some((*key, i)),
+                Some(Value::Int32(key)) => Some((*key as u32, i)),
+                _ => None,
             })
             .collect();
 
